@@ -286,6 +286,8 @@ TREE_NAMES = ['a', 'b', 'ab', 'c', 'a.c', 'b.c', 'a.h', 'x.h', '.hid', '.a.c', '
               'a?b', 'sub', 'src', 'x', 'é.c', 'a\nb', '-', '!a', 'a]', '**', 'lib', 'b.h']
 TREE_PCOMPS = ['*', '*', '**', '**', '*.c', '*.h', 'a*', '?', '[ab]*', 'sub', 'src', 'a', 'b', 'lib', '.*', '*~', '[!.]*', 'a[*]',
                '[[]a]', '*b*', '?.?', 'x*']
+REALISTIC = ['*', '**', '*.c', '**/*.c', '**/*.h', '*/*.c', '**/a*', 'sub/**', '**/sub/*', '*/*', '**/*', '**/*/*', 'a*/**/*.c',
+             '**/[ab]*', '**/?', '**/*b*/**', '**/a/**/b*', '*/**/*.?', '**/**/a*', '**/*.c/**', '?*/**']
 EXTRAS = [[], [], ['*.h'], ['*.h', 'x*'], ['sub/'], ['a*'], ['*'], ['[ab]/'], ['*.c']]
 EXCLUDES = [[], [], ['sub'], ['a*'], ['*.c'], ['b/'], ['lib/', 'x'], ['*'], ['??']]
 DEFAULT_EXCLUDE = ['.*#', '*~', '#*#']
@@ -293,12 +295,12 @@ DEFAULT_EXCLUDE = ['.*#', '*~', '#*#']
 
 def gen_tree(rng, depth, rep=None):
     """abstract tree: list of ('f', name) | ('d', name, children) | ('ld', name) | ('lf', name) | ('lb', name)"""
-    n = rng.choice([0, 1, 2, 3, 4, 5, 6])
+    n = rng.choice([0, 1, 2, 3, 4, 5, 6, 7, 8])
     names = rng.sample(TREE_NAMES, n)
     out = []
     for nm in names:
         r = rng.random()
-        if depth > 0 and r < 0.4:
+        if depth > 0 and r < 0.42:
             out.append(('d', nm, gen_tree(rng, depth - 1, rep)))
         elif r < 0.47:
             out.append(('ld', nm))
@@ -336,6 +338,8 @@ def scan(where):
         full = os.path.join(where, n)
         if os.path.isdir(full):
             out.append([1, n, os.path.islink(full), scan(full)])
+        elif os.path.islink(full) and not os.path.exists(full):
+            out.append([0, n, 1])      # dangling link: listed, but path.exists is false
         else:
             out.append([0, n])
     return out
@@ -359,14 +363,20 @@ def all_dirs(tree, prefix=()):
 def gen_filter_spec(rng, fstree, rep=None):
     """-> dict(include=[(pattern string, root name)], type, extra, exclude, fn or None)"""
     dirs = list(all_dirs(fstree))
+    files = [k[1] for k in all_entries(fstree, 1) if k[1] not in set(dirs)][:50]
     incs = []
     for _ in range(rng.choice([1, 1, 1, 2, 2, 3])):
-        comps = [rng.choice(TREE_PCOMPS) for _ in range(rng.choice([1, 1, 2, 2, 3, 4]))]
+        if rng.random() < 0.55:
+            comps = rng.choice(REALISTIC).split('/')
+        else:
+            comps = [rng.choice(TREE_PCOMPS) for _ in range(rng.choice([1, 1, 2, 2, 3, 4]))]
         r = rng.random()
         if r < 0.35 and dirs:
             comps = list(rng.choice(dirs)) + comps
         elif r < 0.42:
             comps = [rng.choice(['nonexistent', 'a.c', 'a'])] + comps
+        elif r < 0.5 and files:
+            comps = list(rng.choice(files)) + comps
         if not any(is_glob(c) for c in comps):
             comps.append('*')
         s = '/'.join(comps) + ('/' if rng.random() < 0.2 else '')
@@ -505,7 +515,7 @@ def spec_selected(spec, tab, fsys, bases):
             if nxt is None:
                 ch = None
                 break
-            ch = nxt[3] if nxt[0] == 1 else ([] if i == len(bits) - 1 else None)
+            ch = nxt[3] if nxt[0] == 1 else ([] if i == len(bits) - 1 and len(nxt) == 2 else None)
             if ch is None:
                 break
         if ch is not None:
@@ -523,7 +533,7 @@ class Scene:
         for n in ['a.c', 'x.h', 'sub/b.c']:
             open(os.path.join(ext, 'dir', n), 'w').close()
         open(os.path.join(ext, 'file.c'), 'w').close()
-        realise(gen_tree(rng, rng.choice([1, 2, 3, 4]), rep), os.path.join(self.root, 'src'), ext)
+        realise(gen_tree(rng, rng.choice([2, 3, 3, 4]), rep), os.path.join(self.root, 'src'), ext)
         realise(gen_tree(rng, 1), os.path.join(self.root, 'build'), ext)
         self.fsys = [(1, scan(os.path.join(self.root, 'src'))), (2, scan(os.path.join(self.root, 'build')))]
         self.mfsys = [[r, t] for r, t in self.fsys]
